@@ -1162,15 +1162,17 @@ func (h *hist) quit(rid int) {
 	if h.broken {
 		return
 	}
-	select {
-	case <-h.parked[rid].quit: // quit before and still waiting
-	default:
-		close(h.parked[rid].quit)
-	}
-	for j := 0; j < 100; j++ {
-		h.settle()
-		if len(h.parked[rid].result) != 0 {
-			break
+	if p := h.parked[rid]; p != nil { // (a scripted scenario may quit a request that returned at once: a no-op)
+		select {
+		case <-p.quit: // quit before and still waiting
+		default:
+			close(p.quit)
+		}
+		for j := 0; j < 100; j++ {
+			h.settle()
+			if len(p.result) != 0 {
+				break
+			}
 		}
 	}
 	h.stats["quit"]++
